@@ -296,8 +296,12 @@ func checkC09(c *Ctx) {
 	}
 	if t, fn := f.Term("umrToGoReturn"); fn != nil {
 		pos := c.Pos(f.M.Fset, fn.Decl.Pos())
-		only, _ := armBody(f.Path, t, "UnionMatchRules_UCaseOnly")
-		wd, _ := armBody(f.Path, t, "UnionMatchRules_UCaseWD")
+		only, wd := "", strings.Join(armBodies(f.Path, t, "UnionMatchRules_UCaseWD"), " ; ")
+		for _, b := range armBodies(f.Path, t, "UnionMatchRules_UCaseOnly") {
+			if strings.Contains(b, "Never reached here") {
+				only = b
+			}
+		}
 		okArm := strings.Contains(only, `default:\npanic(\"Union pattern fail. Never reached here.\")`) && !strings.Contains(wd, "Never reached here")
 		r.Check(okArm && len(holders) == 1 && holders[0] == "umrToGoReturn", "C09.d", "umrToGoReturn", "panic-default-emission", pos,
 			"the never-reached default is emitted exactly for default-less matches (UCaseOnly arm), nowhere else",
